@@ -155,7 +155,7 @@ func runC14(w *World, r *Report) {
 	r.Rule("C14-R1", "append exactly once, first", "every path of Packer.Receive stores append(p.msgs, msg) exactly once, and that store dominates every handler call", 2)
 	r.Rule("C14-R2", "who-may-write the buffer; handler sees the buffer", "Packer.msgs is written only by the append, the reset and NewPacker; each handler call receives a direct read of p.msgs", 7)
 	r.Rule("C14-R3", "reset after every flush", "after each handler call the reset (checkers Reset, memoryProtector.Remove(currentMsgPackSize), msgs = empty, size = 0) runs on every exit path, directly or through the deferred block whose flag is set on that path", 4)
-	r.Rule("C14-R4", "size accounting balance", "each path of Receive calls memoryProtector.Add exactly once with the very value added to currentMsgPackSize; currentMsgPackSize and MemoryProtector.current are written nowhere else", 4)
+	r.Rule("C14-R4", "size accounting balance", "each path of Receive calls memoryProtector.Add exactly once with the very value added to currentMsgPackSize; currentMsgPackSize and MemoryProtector.current are written nowhere else", 6)
 	r.Rule("C14-R5", "handler error is returned", "every return reachable after a handler call returns that call's error", 4)
 	r.Rule("C14-R6", "final flush registered before the loop", "in the DML goroutine of startReplicateDMLMsg a deferred ClearMsgs(cb) dominates the packer.Receive(…, cb) call, with the same packer and callback", 1)
 	r.Rule("C14-R7", "checker state encapsulation", "fields of TimerChecker, MsgCountChecker and MemoryProtector are written only by their own methods/constructors; MemoryProtector.current only under its lock", 3)
@@ -487,6 +487,41 @@ func runC14(w *World, r *Report) {
 			}
 		}
 		r.Check(okSize, "C14-R4", "(*Packer).Receive | size measures the received pack", ac.Pos(), "size = Σ msg.Size() over msg.MsgPack.Msgs", "the size added is not computed from the received pack's messages")
+	}
+
+	// Add / Remove bodies: the counter moves by the argument on every path
+	for _, spec := range []struct {
+		name string
+		op   token.Token
+	}{{"Add", token.ADD}, {"Remove", token.SUB}} {
+		fn := w.Func(pkgPacker, "MemoryProtector", spec.name)
+		cons := "(*MemoryProtector)." + spec.name + " | counter moves by the argument on every path"
+		if fn == nil {
+			r.Undecided("C14-R4", cons, 0, "anchor not found")
+			continue
+		}
+		b := "param:" + fn.Params[0].Name()
+		match := func(in ssa.Instruction) bool {
+			st, ok := in.(*ssa.Store)
+			if !ok || w.accessPath(st.Addr) != b+".current" {
+				return false
+			}
+			bo, ok := st.Val.(*ssa.BinOp)
+			if !ok || bo.Op != spec.op {
+				return false
+			}
+			return w.accessPath(bo.X) == b+".current" && bo.Y == ssa.Value(fn.Params[1])
+		}
+		cn := countOnPaths(fn, match)
+		bad := ""
+		for _, blk := range fn.Blocks {
+			if len(blk.Succs) == 0 && blk.Comment != "recover" {
+				if x, ok := cn[blk]; ok && (x.lo != 1 || x.hi != 1) {
+					bad = fmt.Sprintf("an exit path changes the counter between %d and %d times", x.lo, x.hi)
+				}
+			}
+		}
+		r.Check(bad == "", "C14-R4", cons, fn.Pos(), "current "+spec.op.String()+"= size exactly once on every path", bad+": Add and Remove no longer balance, the shared counter drifts")
 	}
 
 	// --- R5 handler error returned
